@@ -247,3 +247,27 @@ Qed.
 Theorem range_on_tuple_crashes :
   ceval (CRange 0 10) None (VS (SOid [1%N; 3%N])) = Crash TypeError.
 Proof. reflexivity. Qed.
+
+(* ---------- reading a record does not change what its constraints see ---------- *)
+
+Theorem mapping_read_all r : mapping (read_all r) = mapping r.
+Proof.
+  unfold mapping, read_all. induction r as [|[k s] r IH]; [reflexivity|].
+  cbn [map flat_map fst snd]. rewrite IH. destruct s; reflexivity.
+Qed.
+
+Theorem encoder_verdict_stable spec r : encoder_admits spec (read_all r) = encoder_admits spec r.
+Proof. unfold encoder_admits. rewrite mapping_read_all. reflexivity. Qed.
+
+(* finding F14d: before the repair a read turns an absent OPTIONAL component into a present one,
+   so SIZE (3) / PRESENT constraints on a record with two components are satisfied after a read *)
+Theorem unrepaired_read_bypasses :
+  exists spec r,
+    encoder_admits_unrepaired spec r = Fail
+    /\ encoder_admits_unrepaired spec (read_all r) = Pass
+    /\ encoder_admits spec (read_all r) = Fail.
+Proof.
+  exists (spec_of [CSize 3 3; CWith [(SText [98%N], CPresent)]]),
+         [(SText [97%N], Assigned (SInt 3)); (SText [98%N], Unset); (SText [99%N], Assigned (SText [100%N]))].
+  vm_compute. repeat split.
+Qed.
